@@ -566,7 +566,12 @@ Section Npz.
      ([n x i64] for both int64 and uint64 coordinates; signedness is invisible at that level) the store is ill-typed
      and compilation fails with a TypeError. *)
   Definition nb_construct_typed (dt : Z * bool) (sh : shape) : bool :=
-    nonempty sh && (fst dt =? 64).
+    if nb_construct_shape_cast then true            (* an explicit tuple-to-tuple cast: always well typed *)
+    else nonempty sh
+         && match assoc s_shape nb_dtype_source with
+            | Some src => if String.eqb src "coords_dtype" then fst dt =? 64 else true   (* intp elements *)
+            | None => false
+            end.
   Definition nb_construct (zero : V) (dt : Z * bool) (c : coo V) : res arr :=
     if nb_construct_typed dt (c_shape c) then
       nb_box [(s_coords, FMat (len (c_shape c)) (c_coords c)); (s_data, FData (c_data c));
